@@ -293,6 +293,16 @@ func c08R2(c *Ctx, r *Report) {
 					}
 				}
 				if got == nil {
+					// one walk over a local table of the sections, from its first entry to its last
+					for v := range sliceOf(recv) {
+						if al, ok := v.(*ssa.Alloc); ok {
+							if l, ok := sectionTableOrder(al); ok && len(l) == len(secs) {
+								got = l
+							}
+						}
+					}
+				}
+				if got == nil {
 					problems = append(problems, fmt.Sprintf("%s: a record length is taken from %v, not from one section and not from a concatenation of sections whose order can be read off", c.pos(call.Pos()), secs))
 					return
 				}
@@ -584,4 +594,110 @@ func identName(e ast.Expr) string {
 		return id.Name
 	}
 	return ""
+}
+
+// sectionTableOrder: al is a local array whose entries (stored once each, at constant indices) are the addresses of
+// sections of the Msg, and every variable index into it runs upwards by one from its first entry. The sections in the
+// order of the entries.
+func sectionTableOrder(al *ssa.Alloc) ([]string, bool) {
+	pt, ok := al.Type().Underlying().(*types.Pointer)
+	if !ok {
+		return nil, false
+	}
+	arr, ok := pt.Elem().Underlying().(*types.Array)
+	if !ok || al.Referrers() == nil {
+		return nil, false
+	}
+	entries := make([]string, arr.Len())
+	ascending := func(idx ssa.Value) bool {
+		// phi [-1, phi+1] + 1, or phi [0, phi+1]
+		var phi *ssa.Phi
+		first := int64(0)
+		switch t := idx.(type) {
+		case *ssa.Phi:
+			phi = t
+		case *ssa.BinOp:
+			k, isK := constIntOf(t.Y)
+			p, isPhi := t.X.(*ssa.Phi)
+			if t.Op != token.ADD || !isK || k != 1 || !isPhi {
+				return false
+			}
+			phi, first = p, -1
+		default:
+			return false
+		}
+		for i, e := range phi.Edges {
+			if phi.Block().Dominates(phi.Block().Preds[i]) {
+				b, isBin := e.(*ssa.BinOp)
+				if !isBin || b.Op != token.ADD || b.X != ssa.Value(phi) {
+					return false
+				}
+				if k, isK := constIntOf(b.Y); !isK || k != 1 {
+					return false
+				}
+			} else if k, isK := constIntOf(e); !isK || k != first {
+				return false
+			}
+		}
+		return true
+	}
+	var useIndex func(v ssa.Value, depth int) bool
+	useIndex = func(v ssa.Value, depth int) bool {
+		if depth > 3 || v.Referrers() == nil {
+			return false
+		}
+		for _, ref := range *v.Referrers() {
+			switch t := ref.(type) {
+			case *ssa.DebugRef:
+			case *ssa.IndexAddr:
+				if k, isK := constIntOf(t.Index); isK && v == ssa.Value(al) {
+					for _, rr := range *t.Referrers() {
+						if st, isSt := rr.(*ssa.Store); isSt && st.Addr == ssa.Value(t) {
+							if k < 0 || k >= int64(len(entries)) || entries[k] != "" {
+								return false
+							}
+							for _, sname := range []string{"Question", "Answer", "Ns", "Extra"} {
+								if readsField("Msg", sname)(st.Val) {
+									entries[k] = sname
+								}
+							}
+							if entries[k] == "" {
+								return false
+							}
+						}
+					}
+				} else if !ascending(t.Index) {
+					return false
+				}
+			case *ssa.Index:
+				if !ascending(t.Index) {
+					return false
+				}
+			case *ssa.UnOp:
+				if t.Op != token.MUL || !useIndex(t, depth+1) {
+					return false
+				}
+			case *ssa.Slice:
+				if t.Low != nil || t.High != nil || !useIndex(t, depth+1) {
+					return false
+				}
+			case *ssa.Call:
+				if calleeNameSSA(&t.Call) != "builtin.len" {
+					return false
+				}
+			default:
+				return false
+			}
+		}
+		return true
+	}
+	if !useIndex(al, 0) {
+		return nil, false
+	}
+	for _, e := range entries {
+		if e == "" {
+			return nil, false
+		}
+	}
+	return entries, true
 }
